@@ -9,7 +9,7 @@ VARIABLES mode, n
 vars == <<mode, n>>
 
 Ops0 == {W("a"), IV("x"), QV("z"), INT("7"), OP("op"), PH}
-OpsPool == Ops0 \cup {RepOf(kd) : kd \in {"SetExtension", "SetIntension", "Product", "Inheritance", "Similarity", "Negation", "ImageExtension", "Conjunction"}}
+OpsPool == Ops0 \cup {SE1(W("c")), SI1(W("c")), SE1(SI1(W("c"))), SI1(SI1(W("c")))} \cup {RepOf(kd) : kd \in {"SetExtension", "SetIntension", "Product", "Inheritance", "Similarity", "Negation", "ImageExtension", "Conjunction"}}
 OpsBig == OpsPool \cup (IF TIER = "thorough" THEN U1 ELSE Sample(U1, 9, SEED))
 
 Level1 ==
